@@ -2,74 +2,9 @@ package diam
 
 import (
 	"github.com/fiorix/go-diameter/v4/diam/datatype"
-	"github.com/fiorix/go-diameter/v4/diam/dict"
 )
 
 // C04: AVP boundaries are taken from the Length fields only.
-
-// zzLegalLen is the reference "payload length legal for the type" predicate (DESIGN B.2),
-// for the fixed-width types; other types accept any length here.
-func zzLegalLen(ty datatype.TypeID, n int) bool {
-	switch ty {
-	case datatype.Unsigned32Type, datatype.Integer32Type, datatype.EnumeratedType, datatype.Float32Type, datatype.TimeType, datatype.IPv4Type:
-		return n == 4
-	case datatype.Unsigned64Type, datatype.Integer64Type, datatype.Float64Type:
-		return n == 8
-	case datatype.IPv6Type:
-		return n == 16
-	}
-	return true
-}
-
-type zzRec struct {
-	off, hdr, l int
-	code        uint32
-	flags       uint8
-	vendor      uint32
-}
-
-// zzFrameFixed places k AVP images of padded sizes p[i] (case-split) in a symbolic body and assumes
-// only that each declared Length is consistent with its slot: hdr <= L <= p and pad4(L) == p.
-// Everything else (codes, flags, vendor ids, payload bytes, the exact L) stays symbolic.
-func zzFrameFixed(body []byte, sizes []int) []zzRec {
-	recs := make([]zzRec, len(sizes))
-	off := 0
-	for i, p := range sizes {
-		b := body[off : off+p]
-		l := int(b[5])<<16 | int(b[6])<<8 | int(b[7])
-		hdr := 8
-		var vendor uint32
-		if b[4]&0x80 != 0 {
-			hdr = 12
-		}
-		vAssume(l >= hdr && l <= p && l > p-4)
-		if hdr == 12 {
-			vendor = zzBE32(b[8:12])
-		}
-		recs[i] = zzRec{off: off, hdr: hdr, l: l, code: zzBE32(b[0:4]), flags: b[4], vendor: vendor}
-		off += p
-	}
-	return recs
-}
-
-func zzMessageBytes(body []byte, flags uint8, cmd, app uint32) []byte {
-	n := 20 + len(body)
-	b := make([]byte, n)
-	b[0] = 1
-	b[1], b[2], b[3] = byte(n>>16), byte(n>>8), byte(n)
-	b[4] = flags
-	b[5], b[6], b[7] = byte(cmd>>16), byte(cmd>>8), byte(cmd)
-	b[8], b[9], b[10], b[11] = byte(app>>24), byte(app>>16), byte(app>>8), byte(app)
-	copy(b[20:], body)
-	return b
-}
-
-// zzKnownCommand fixes the dictionary's answer for the message's command: defined, with rules.
-// (Unknown commands and rule-less commands are rejected before any AVP is looked at: C03.)
-func zzKnownCommand(d *dict.Parser, app, cmd uint32) {
-	c, err := d.FindCommand(app, cmd)
-	vAssume(err == nil && len(c.Request.Rule) > 0)
-}
 
 // zzC04_top: K top-level AVPs (K = 1..2), slot sizes case-split, contents symbolic.
 func zzC04_top() {
